@@ -69,17 +69,17 @@ func TestProp(t *testing.T) {
 	rep.Assume("for sessions minted by the harness (login refused) group membership on a request with no check due is 'as of the last check': not judged; a session with an empty e-mail cannot be issued (redeem refuses it): not judged where no e-mail rule is configured")
 
 	nConfigs := env.Pick(8, 40)
-	perConfig := env.Pick(512, 2560)
+	perConfig := env.Pick(512, 1536)
 	start := time.Now()
 
 	only, skipMain := env.Only("c11")
 	if !skipMain {
-		// stacks are independent; three at a time keep the cores busy (each runs one worker per upstream)
+		// stacks are independent; two at a time keep the cores busy (each runs one worker per upstream)
 		onlyCfg := -1
 		if only >= 0 {
 			onlyCfg = only / perConfig
 		}
-		vh.ForEach(nConfigs, 1, onlyCfg, func(ci int) { runConfig(rep, env, ci, perConfig, only) })
+		vh.ForEach(nConfigs, 2, onlyCfg, func(ci int) { runConfig(rep, env, ci, perConfig, only) })
 	}
 	onlyE, skipE := env.Only("c11-empty")
 	if !skipE && only < 0 {
@@ -407,7 +407,11 @@ func runCase(rep *vh.Report, env vh.Env, ps *sut.ProxyStack, u *upstream, ci, i,
 			case ref.overall == pass && v == "deny":
 				fe := ref.failingEmailKinds()
 				failing := "none"
-				if len(fe) > 0 {
+				if st.name != "next-request" && kc.Next.Verdict == "admit" && ref.grp == fail {
+					// the e-mail rules did not refuse the plain next request, so what refuses now is the
+					// group check that only runs at revalidation / refresh
+					failing = "group"
+				} else if len(fe) > 0 {
 					failing = strings.Join(fe, "+")
 					if st.name != "next-request" && kc.Next.Verdict == "deny" {
 						// the per-request all-of loop already refused this user on the plain next request
@@ -449,7 +453,19 @@ func runCase(rep *vh.Report, env vh.Env, ps *sut.ProxyStack, u *upstream, ci, i,
 				rep.Count("later_differs_like_login", 1)
 				continue
 			}
-			rep.Violate("c11", i, fmt.Sprintf("later-differs: site=%s cookie=minted later=%s reference=%s%s", st.name, v, ref.verdict(), inputTag),
+			// every configured kind refuses this user per the reference: name the family that should have
+			tag := inputTag
+			if ref.overall == fail {
+				switch {
+				case !emailKindsCfg:
+					tag = " refusing=group-rule"
+				case u.mask&kGrp == 0:
+					tag = " refusing=email-rules"
+				default:
+					tag = " refusing=email-rules+group-rule"
+				}
+			}
+			rep.Violate("c11", i, fmt.Sprintf("later-differs: site=%s cookie=minted later=%s reference=%s%s", st.name, v, ref.verdict(), tag),
 				"the verdict on a later request differs from the documented meaning of the allow rules", kc)
 		} else {
 			rep.Count("minted_refused_"+strings.Replace(st.name, "-", "_", -1), 1)
